@@ -54,8 +54,13 @@ class SpecEval:
         return SpecEval(self.old_st, self.old_env, self.old_st, self.old_env, self.engine)
 
     def bool_of(self, src: str):
-        v = self.ev(parse_expr(src))
-        return ops.truthy(self.st, v)
+        try:
+            v = self.ev(parse_expr(src))
+            return ops.truthy(self.st, v)
+        except Unsupported as e:
+            if "[in clause" in str(e):
+                raise
+            raise Unsupported("%s [in clause: %s]" % (e, src[:160]))
 
     def value_of(self, src: str) -> V:
         return self.ev(parse_expr(src))
@@ -99,6 +104,10 @@ class SpecEval:
         raise Unsupported("unknown name %r in contract" % n.id)
 
     def ev_Attribute(self, n):
+        if isinstance(n.value, ast.Name) and n.value.id == "G":
+            if n.attr not in self.st.ghost:
+                raise Unsupported("ghost variable G.%s is not declared/initialised" % n.attr)
+            return self.st.ghost[n.attr]
         base = self.ev(n.value)
         if base.ty.kind == "obj":
             return self.st.get_field(base, n.attr)
@@ -185,6 +194,8 @@ class SpecEval:
     def ev_Subscript(self, n):
         base = self.ev(n.value)
         sl = n.slice
+        if base.ty.kind == "opt":
+            base = base.val
         if base.ty.kind == "tuple":
             if isinstance(sl, ast.Constant) and isinstance(sl.value, int):
                 return base.items[sl.value]
@@ -582,3 +593,30 @@ def _in_prefix(se, a, kw):
     s = se.seq(a[0])
     k = coerce(a[2], s.ty.args[0])
     return vbool(in_prefix_fn(sort_of(s.ty.args[0]))(s.t, a[1].t, k.t))
+
+
+@specfun("adjusted_uri")
+def _adjusted_uri(se, a, kw):
+    rel = coerce(a[1], Ty("opt", (STR,)))
+    return V(STR, ops.UF("adjusted_uri", z3.StringSort(), z3.BoolSort(), z3.StringSort(), z3.StringSort())(a[0].t, rel.isnone, rel.val.t))
+
+
+@specfun("looked_up")
+def _looked_up(se, a, kw):
+    from .types import OBJ
+    return V(OBJ("Template"), ops.UF("looked_up", z3.IntSort(), z3.StringSort(), z3.IntSort())(a[0].t, a[1].t))
+
+
+SPECFUNS["ns_template"] = _field_fun("template", "Namespace")
+SPECFUNS["ns_context"] = _field_fun("context", "Namespace")
+SPECFUNS["ns_inherits"] = _field_fun("inherits", "Namespace")
+
+
+@specfun("dyn_is_def_template")
+def _dyn_is_def_template(se, a, kw):
+    return vbool(z3.And(a[0].t != 0, ops.UF("dyn_isinstance_DefTemplate", z3.IntSort(), z3.BoolSort())(a[0].t)))
+
+
+@specfun("truthy_inh")
+def _truthy_inh(se, a, kw):
+    return vbool(True)
